@@ -6,6 +6,8 @@
    Property theorems only; each is closed by a lemma from the proof files. *)
 From Coq Require Import String.
 From Coq Require Import List NArith Bool Arith Lia.
+From VF Require Import PyVal.Val Merge.Merge Yaml.Target Yaml.Cache Yaml.Validity Yaml.HistoryProofs.
+From VF Require Import Conc.YamlReal.
 From VF Require Import Conc.Machine Conc.Lin Conc.MachineProofs Conc.LinProofs Conc.Theorems Conc.Instances
   Conc.InstanceProofs C19.Entry C19.Proofs.
 Import ListNotations.
@@ -80,6 +82,47 @@ Theorem C19_yaml_answers_are_sequential : forall table tree w0 calls sch,
     In r (map (fun w => flat (yspec table (snapshot_of tree w))) (worlds_of w0 (yenvs sch))).
 Proof. exact yaml_results_in_specs. Qed.
 Print Assumptions C19_yaml_answers_are_sequential.
+
+(* ---- the same over the REAL compile_data model of C12 (Yaml/Target.v) and any cache honouring C12's
+   three-clause contract: threads of get_data calls, each call = get-item (locked); compile_data on the
+   snapshot the call assembled (unlocked); set-item (locked).  For any faithful calls with ANY snapshots
+   and any schedule: the cache stays content-valid in C12's state-independent sense and every call
+   returns spec_full_of_call of the snapshot it read.  Premises = those of C12 (hash injective and free of
+   "|" and "+", well-formed yaml values, current variants). ---- *)
+Theorem C19_yaml_concurrent_real : forall V C H yload mo,
+  tag_after V = true -> rerender V = false ->
+  (forall text v, yload text = Ok v -> wf v = true) ->
+  (forall a b, H a = H b -> a = b) -> (forall s, ~ In BAR (H s)) -> (forall s, ~ In PLUS (H s)) -> (forall s, H s <> []) ->
+  forall (S : Type) (cget : str -> S -> option item * S) (cset : str -> item -> S -> S) (stored : S -> str -> item -> Prop),
+  (forall k st it st', cget k st = (Some it, st') -> stored st k it) ->
+  (forall k st o st' k' it, cget k st = (o, st') -> stored st' k' it -> stored st k' it) ->
+  (forall k v st k' it, stored (cset k v st) k' it -> (k' = k /\ it = v) \/ stored st k' it) ->
+  forall st0 (calls : list (list call)) (sch : list (choice unit)),
+  HistoryProofs.cache_valid V C H yload mo S stored st0 -> Forall (Forall (faithful mo)) calls ->
+  let s := run S unit (rls) call (call * Val.res (dict * str)) unit r_begin (r_prog V C H yload S cget cset)
+               r_ret r_env (init S unit rls call (call * Val.res (dict * str)) (r_begin k0) st0 tt calls) sch in
+  HistoryProofs.cache_valid V C H yload mo S stored (obj s) /\
+  forall t, In t (threads s) -> Forall (fun r => snd r = spec_full_of_call V C H yload (fst r)) (Machine.res t).
+Proof. exact yaml_real_concurrent. Qed.
+Print Assumptions C19_yaml_concurrent_real.
+
+(* the LRU cache of YamlTargetSource (any size; 0 = NullCache) honours the contract (C12_lru_honours_contract) *)
+Theorem C19_yaml_concurrent_real_lru : forall V C H yload mo,
+  tag_after V = true -> rerender V = false ->
+  (forall text v, yload text = Ok v -> wf v = true) ->
+  (forall a b, H a = H b -> a = b) -> (forall s, ~ In BAR (H s)) -> (forall s, ~ In PLUS (H s)) -> (forall s, H s <> []) ->
+  forall capacity (calls : list (list call)) (sch : list (choice unit)), Forall (Forall (faithful mo)) calls ->
+  let s := run (Cache.lru item) unit rls call (call * Val.res (dict * str)) unit r_begin
+               (r_prog V C H yload (Cache.lru item) (Cache.cache_get capacity) (Cache.lru_set capacity)) r_ret r_env
+               (init (Cache.lru item) unit rls call (call * Val.res (dict * str)) (r_begin k0) [] tt calls) sch in
+  forall t, In t (threads s) -> Forall (fun r => snd r = spec_full_of_call V C H yload (fst r)) (Machine.res t).
+Proof.
+  intros V C H yload mo Ht Hr Hy Hi Hb Hp Hn capacity calls sch Hf s.
+  apply (yaml_real_concurrent V C H yload mo Ht Hr Hy Hi Hb Hp Hn (Cache.lru item) (Cache.cache_get capacity) (Cache.lru_set capacity) lru_stored
+           (lru_get_sound' capacity) (lru_get_keeps' capacity) (lru_set_keeps' capacity) [] calls sch); [|exact Hf].
+  intros k it [].
+Qed.
+Print Assumptions C19_yaml_concurrent_real_lru.
 
 (* with a single file change, versions that agree per file and stem from the state before or after the
    change form exactly one of the two states: the call's answer is a sequential answer *)
